@@ -526,6 +526,19 @@ def check_pput(ctx, u, R):
                   'the string is not guaranteed to cover [%s, %s) at the copy: %s' % (off, end, detail or 'no `if (%s > size()) resize(%s)` dominates the memcpy' % (end, end)))
 
 
+
+def _holds_le(rels, val, cap):
+    """is `val <= cap` established: directly, as min(.., cap), or as p + 1 with p < cap"""
+    from guard import holds, _call_args_of, split_const
+    if holds(rels, val, ('<=', '<'), cap):
+        return True
+    if val.startswith('min(') and cap in _call_args_of(val):
+        return True
+    base, k = split_const(val)
+    if k == 1 and holds(rels, base, ('<',), cap):
+        return True
+    return False
+
 def run(ctx):
     ctx.rule('C02-R1', 'every raw use of the reader/writer buffer pointer is dominated by an overflow-safe guard: A <= L and E <= L - A (sum-form guards rejected)', 30)
     ctx.rule('C02-R2', 'every cursor write in a read operation is justified by a dominating check of the same extent, is the returned extent of a clamping read, or is followed by the clamp offset = length', 14)
@@ -605,6 +618,10 @@ def run(ctx):
                     val = rd.inl.c(D[1])
                     rels = rd.rels(x)
                     ok = val == rd.cap or _holds_le(rels, val, rd.cap)
+                    ptr_diff = any(y.get('kind') == 'BinaryOperator' and y.get('opcode') == '-' and '*' in (qtype(strip(y['inner'][0])) or '') for y in walk(D[1]))
+                    if not ok and ptr_diff:
+                        ctx.undecided(R, key, x, 'the cursor is set from a pointer difference (%s): positions obtained from iterator / pointer searches are not modelled' % val)
+                        continue
                     ctx.check(ok, R, key, x, 'cursor set to %s (within the data)' % val, 'cursor assigned %s, which is not known to be <= length' % val)
                     continue
                 if D[0] == '1':
